@@ -874,6 +874,9 @@ func genCase(rt *rapid.T) *Case {
 		c.ExtraBefore = c.Extra != "" && rapid.Bool().Draw(rt, "extraBefore")
 		c.Beside = besideKinds[rapid.IntRange(0, len(besideKinds)-1).Draw(rt, "beside")]
 		c.Variadic = rapid.IntRange(0, 5).Draw(rt, "variadic") == 0
+		if c.Struct == "shared-mixed" {
+			c.Param = "any" // (the only parameter type that takes both productions' terms)
+		}
 		c.Decor = []string{"", "", "", "", "", "var-of-parser-type", "var-pointer", "func-and-alias"}[rapid.IntRange(0, 7).Draw(rt, "decor")]
 		if c.Skel == "tokstar" {
 			c.T = "tok"
